@@ -11,6 +11,7 @@ import (
 	"sort"
 	"strings"
 	"sync/atomic"
+	"syscall"
 	"time"
 )
 
@@ -80,7 +81,16 @@ type Ctx struct {
 	Seed      int64
 	Journal   bool
 	Replaying bool
-	deadline  time.Time
+	// The budget of a worker is CPU time it has used itself, not time on the
+	// wall: how much of the enumeration fits into it then depends on the code
+	// and the tier only, not on what else the machine is doing (other checks
+	// running side by side, a starved or slower copy of the sandbox). The
+	// wall-clock limit is a distant backstop for a machine that gives the
+	// worker next to no CPU at all.
+	cpuBudget time.Duration
+	wallLimit time.Time
+	nextLook  time.Time
+	expired   bool
 	ticks     int64
 	rep       Report
 	distinct  map[string]struct{}
@@ -94,7 +104,8 @@ func NewCtx(tier string, shard, n int, seed int64, budget time.Duration) *Ctx {
 	c.rep.Fails = map[string]*Failure{}
 	c.distinct = map[string]struct{}{}
 	if budget > 0 {
-		c.deadline = time.Now().Add(budget)
+		c.cpuBudget = budget
+		c.wallLimit = time.Now().Add(WallBackstop(budget))
 	}
 	c.Journal = os.Getenv("VERIF_JOURNAL") == "1"
 	return c
@@ -170,14 +181,54 @@ func (c *Ctx) HarnessError(format string, args ...any) {
 // expanding and the run is marked non-exhaustive.
 func (c *Ctx) Expired(what string) bool {
 	atomic.AddInt64(&c.ticks, 1)
-	if c.deadline.IsZero() || time.Now().Before(c.deadline) {
+	if c.cpuBudget == 0 {
 		return false
 	}
+	if c.expired {
+		return true // once over, always over: every later loop of the check stops too
+	}
+	now := time.Now()
+	if now.Before(c.nextLook) {
+		return false
+	}
+	used := selfCPU()
+	if used < c.cpuBudget && now.Before(c.wallLimit) {
+		// CPU time cannot grow much faster than the wall clock (GOMAXPROCS=1
+		// plus the collector's helpers), so a quarter of what is left is a safe
+		// time to look again without a system call at every poll.
+		wait := (c.cpuBudget - used) / 4
+		if wait > 2*time.Second {
+			wait = 2 * time.Second
+		}
+		if wait < 10*time.Millisecond {
+			wait = 10 * time.Millisecond
+		}
+		c.nextLook = now.Add(wait)
+		return false
+	}
+	c.expired = true
 	if !c.rep.Capped {
 		c.rep.Capped = true
-		c.rep.CapNote = "internal deadline reached in " + what
+		kind := fmt.Sprintf("%.0f s of CPU time used by this worker", c.cpuBudget.Seconds())
+		if used < c.cpuBudget {
+			kind = fmt.Sprintf("wall-clock backstop of %.0f min; the worker had only %.0f s of CPU time", WallBackstop(c.cpuBudget).Minutes(), used.Seconds())
+		}
+		c.rep.CapNote = "internal deadline reached in " + what + " (" + kind + ")"
 	}
 	return true
+}
+
+// WallBackstop is the wall-clock limit that goes with a CPU-time budget: three
+// times the budget, i.e. a worker that got less than a third of a processor.
+func WallBackstop(budget time.Duration) time.Duration { return 3 * budget }
+
+// selfCPU is the CPU time (user + system, all threads) this process has used.
+func selfCPU() time.Duration {
+	var ru syscall.Rusage
+	if err := syscall.Getrusage(syscall.RUSAGE_SELF, &ru); err != nil {
+		return 0
+	}
+	return time.Duration(ru.Utime.Nano() + ru.Stime.Nano())
 }
 
 // Cap marks the run non-exhaustive for a stated reason.
